@@ -505,7 +505,10 @@ def _q(u, v, on):
 
 
 def _build(stg, u, c, seed_obj):
-    kw = dict(sample_rate=_q(u, c['fs'], c['fs_q']), fch1=_q(u, c['fch1'], c['fch1_q']), ascending=c['asc'], seed=seed_obj)
+    # the orientation flag as callers compute it: a Python bool, or the numpy bool of a comparison such as `chan_bw > 0`
+    asc_form = c['seed'] % 3 if isinstance(c.get('seed'), int) else 0
+    asc_arg = c['asc'] if asc_form == 0 else (np.bool_(c['asc']) if asc_form == 1 else (np.float64(1.0 if c['asc'] else -1.0) > 0))
+    kw = dict(sample_rate=_q(u, c['fs'], c['fs_q']), fch1=_q(u, c['fch1'], c['fch1_q']), ascending=asc_arg, seed=seed_obj)
     if c['t0_class'] != 'default':
         kw['t_start'] = c['t0']
     if c['kind'] == 'stream':
@@ -525,8 +528,17 @@ def _add_source(u, stream, spec):
     elif spec['type'] == 'chirp':
         kw = dict(f_start=spec['f'], drift_rate=spec['drift'], level=spec['level'])
         if spec['units']:
-            kw['f_start'] = spec['f'] * u.Hz
-            kw['drift_rate'] = spec['drift'] * u.Hz / u.s
+            form = int(abs(spec['f'])) % 3
+            if form == 0:
+                kw['f_start'] = spec['f'] * u.Hz
+                kw['drift_rate'] = spec['drift'] * u.Hz / u.s
+            else:
+                # other units than the base ones; the reference works with the value the conversion yields (the spec is updated)
+                qf = (spec['f'] / 1e6) * u.MHz if form == 1 else (spec['f'] / 1e9) * u.GHz
+                qd = (spec['drift'] / 1e3) * u.kHz / u.s if form == 1 else (spec['drift'] * 60.0) * u.Hz / u.min
+                spec['f'] = float(qf.to(u.Hz).value)
+                spec['drift'] = float(qd.to(u.Hz / u.s).value)
+                kw['f_start'], kw['drift_rate'] = qf, qd
         if spec['phase'] is not None:
             kw['phase'] = spec['phase']
         stream.add_constant_signal(**kw)
